@@ -596,7 +596,23 @@ type c16H struct {
 	supInflight bool // a connection had unacknowledged operations when it was superseded
 	probeN  int
 	ncli    int
+	live    int
+	liveNames map[string]bool
 	takeovers, restores int
+}
+
+// goTask starts a harness task and keeps count of the live ones (the end of
+// Exec waits for them with a time-out instead of blocking for ever).
+func (h *c16H) goTask(name string, f func()) {
+	h.live++
+	h.liveNames[name] = true
+	h.r.Go(name, func() {
+		defer func() {
+			h.live--
+			delete(h.liveNames, name)
+		}()
+		f()
+	})
 }
 
 func (h *c16H) logf(format string, a ...interface{}) {
@@ -710,9 +726,18 @@ func c16Blocked() string {
 	}
 	var out []string
 	seen := map[string]int{}
+	bubble := ""
 	for _, g := range strings.Split(string(buf[:n]), "\n\n") {
 		lines := strings.Split(g, "\n")
-		if len(lines) < 3 || !strings.Contains(lines[0], "synctest bubble") {
+		if bubble == "" {
+			// the first goroutine of the dump is the caller: only its bubble counts
+			if j := strings.Index(lines[0], "synctest bubble"); j >= 0 {
+				bubble = strings.TrimRight(lines[0][j:], "]:")
+			} else {
+				bubble = "synctest bubble"
+			}
+		}
+		if len(lines) < 3 || !strings.Contains(lines[0], bubble+"]") {
 			continue
 		}
 		var frames []string
@@ -991,9 +1016,9 @@ func (h *c16H) dial(c *c16Cli) bool {
 	c.conn = conn.(*simnet.Conn)
 	c.cid = c.conn.ID
 	h.byConn[c.cid] = c
-	h.r.Go(c.name+".rd", c.reader)
+	h.goTask(c.name+".rd", c.reader)
 	if !c.spec.NoAck {
-		h.r.Go(c.name+".wr", c.acker)
+		h.goTask(c.name+".wr", c.acker)
 	}
 	return true
 }
@@ -1090,7 +1115,7 @@ func (h *c16H) driver() {
 			h.r.Probe("c16.clean_flag_flip")
 		}
 		h.pending++
-		h.r.Go(c.name, func() {
+		h.goTask(c.name, func() {
 			defer h.scriptDone()
 			h.runSteps(c)
 		})
@@ -1424,7 +1449,7 @@ func (h *c16H) probe() (map[string]string, bool) {
 	if h.sc.AllQoS1 {
 		q = 1
 	}
-	h.r.Go(fmt.Sprintf("probe%d", round), func() {
+	h.goTask(fmt.Sprintf("probe%d", round), func() {
 		for i, t := range c16Topics {
 			pl := fmt.Sprintf("p%d.%d", round, i)
 			out[t] = pl
@@ -1577,6 +1602,8 @@ func (h *c16H) final() {
 		switch {
 		case !sessHas(f) && inh && h.takeoverTeardown() && h.brokerDeleted():
 			return "C16.takeover.stored-session-deleted"
+		case !sessHas(f) && inh && h.sc.Store.Async:
+			return "C16.reconnect.subscription-not-restored.store-lag"
 		case !sessHas(f) && inh && h.supInflight:
 			// a packet of the superseded connection was processed after the
 			// takeover and stored its old session over the successor's
@@ -1775,7 +1802,7 @@ func c16Exec(r *sim.Run, sci interface{}) {
 			}
 		}
 	}
-	h := &c16H{r: r, sc: sc, byConn: map[int]*c16Cli{}, srv: map[int]*c16Srv{}, note: make(chan struct{})}
+	h := &c16H{r: r, sc: sc, byConn: map[int]*c16Cli{}, srv: map[int]*c16Srv{}, note: make(chan struct{}), liveNames: map[string]bool{}}
 	h.model = c16Model{subs: map[string]byte{}, inherited: map[string]bool{}, amb: map[string]bool{}, ever: map[string]bool{}}
 	h.n = simnet.New()
 	if sc.BufSize > 0 {
@@ -1844,7 +1871,7 @@ func c16Exec(r *sim.Run, sci interface{}) {
 			}
 			// a named task: the names of the broker's goroutines (children of
 			// this one) then do not depend on who reaches a gate first
-			r.Go(fmt.Sprintf("srv%d", id), func() { h.serve(cn) })
+			h.goTask(fmt.Sprintf("srv%d", id), func() { h.serve(cn) })
 		}
 	}()
 	r.SetInvariant(h.invariant)
@@ -1854,11 +1881,11 @@ func c16Exec(r *sim.Run, sci interface{}) {
 		h.bys = append(h.bys, c)
 		h.pending++
 		by := by
-		r.Go(c.name, func() { h.bystander(c, by) })
+		h.goTask(c.name, func() { h.bystander(c, by) })
 	}
 	h.pending += 2
-	r.Go("driver", h.driver)
-	r.Go("pub", h.publisher)
+	h.goTask("driver", h.driver)
+	h.goTask("pub", h.publisher)
 	h.waitH("script-end", func() bool { return h.pending == 0 })
 
 	// settle: let keep-alive deadlines of dead connections and delayed storage
@@ -1946,7 +1973,21 @@ func c16Exec(r *sim.Run, sci interface{}) {
 		}()
 	}
 	h.bcast()
-	if !h.stuck {
+	// every task ends once its connection is gone; a connection handler that
+	// does not return even now is blocked inside the broker
+	for i := 0; i < 600 && h.live > 0; i++ {
+		r.Sleep(time.Second)
+	}
+	if h.live > 0 && !h.stuck && !r.Aborted() {
+		var names []string
+		for n := range h.liveNames {
+			names = append(names, n)
+		}
+		sort.Strings(names)
+		_, detail := h.stuckDiag()
+		r.Violate("C16.stuck.handler-never-returns", "10 min after the broker was closed and every connection reset these tasks have not returned: %v; %s\n%s", names, detail, h.history())
+	}
+	if h.live == 0 {
 		r.WaitTasks()
 	}
 }
